@@ -92,6 +92,10 @@ def representations(ts, n):
     reps['TruthTable(str)'] = TruthTable([''.join('1' if b else '0' for b in r) for r in table])
     reps['PyFunction'] = PyFunction(lookup, input_size=n)
     reps['PyFunction(output_size)'] = PyFunction(lookup, input_size=n, output_size=m)
+    def lookup_int(args):
+        return [int(v) for v in lookup(args)]
+
+    reps['PyFunction(int-valued)'] = PyFunction(lookup_int, input_size=n)
     if n >= 1:
         reps['PyFunction.from_positional'] = PyFunction.from_positional(make_positional(n, lookup))
     mx = c19.mux_net([rows_of(t, n) for t in ts], n, 'M_')
@@ -192,9 +196,18 @@ def check_function(acc, ts, n, reps, tag):
             except Exception as e:  # noqa: BLE001
                 acc.violation(f'{name}.define/wrong-exception', case('define(nonempty)'), repr(e), feats)
     # identical answers across representations
+    def _nb(v):
+        if isinstance(v, (list, tuple)):
+            return [_nb(x) for x in v]
+        if v is None:
+            return None
+        if isinstance(v, int):  # bools and 0/1 integers denote the same values
+            return bool(v) if v in (0, 1) else v
+        return v
+
     for query, by in answers.items():
         vals = list(by.values())
-        norm = [repr([list(r) for r in v] if query.startswith(('get_', 'evaluate(', 'check(')) and v is not None and not isinstance(v, bool) and v and isinstance(v[0], (list, tuple)) else (list(v) if isinstance(v, (list, tuple)) else v)) for v in vals]
+        norm = [repr(_nb(v)) for v in vals]
         if len(set(norm)) > 1:
             acc.violation('representations-disagree', case(query), str({k: norm[i] for i, k in enumerate(by)}), {'query': query.split('(')[0]})
     acc.outcome('fn', (n, m, tuple(d_const(t, n) for t in ts), d_symmetric_multi(ts, n), all(d_monotone(t, n, False) for t in ts)))
@@ -232,7 +245,19 @@ def check_models(acc, n, m, lo, hi):
                 j = (j << 1) | int(bool(b))
             return [t[j] for t in table]
 
+        kept_rows = [[t[j] for t in table] for j in range(1 << n)]  # lists the callable keeps and hands out
+        kept_spec = [list(r) for r in kept_rows]
+
+        def lookup_kept(args, kept_rows=kept_rows):
+            j = 0
+            for b in args:
+                j = (j << 1) | int(bool(b))
+            return kept_rows[j]
+
+        ttm_for_check = TruthTableModel([list(s) for s in mr])
         reps = {
+            'PyFunctionModel(kept-lists)': PyFunctionModel(lookup_kept, input_size=n),
+            'PyFunctionModel(TruthTableModel.check)': PyFunctionModel(ttm_for_check.check, input_size=n),
             'TruthTableModel': TruthTableModel([list(s) for s in mr]),
             'TruthTableModel(values)': TruthTableModel([list(r) for r in table]),
             'PyFunctionModel': PyFunctionModel(lookup, input_size=n),
@@ -280,6 +305,10 @@ def check_models(acc, n, m, lo, hi):
                         if list(fn.evaluate(list(x))) != [exp[h][j] for h in range(m)]:
                             acc.violation(f'{name}.define/evaluate-of-completion', case(f'define({sub}).evaluate({j})'), '', feats)
                             break
+                # completing a model must not change the model (nor what its callable keeps)
+                mt2 = f.get_model_truth_table()
+                if [''.join(tri(v) for v in r) for r in mt2] != list(mr):
+                    acc.violation(f'{name}.define/changes-the-model', case('get_model_truth_table after define'), str(mt2), feats)
             except Exception as e:  # noqa: BLE001
                 acc.violation(f'{name}/raises-{type(e).__name__}', case('any'), repr(e), feats)
         acc.outcome('model', (n, m, len(stars)))
@@ -414,12 +443,12 @@ def plan(tier):
 
 def describe(tier):
     return {
-        'rule': 'funcs: every function table for the listed (n,m) in 6 representations (TruthTable from bools / strings, PyFunction from a '
-        'list callable with and without output_size, PyFunction.from_positional, Circuit as mux tree); circuits: every circuit of '
+        'rule': 'funcs: every function table for the listed (n,m) in 7 representations (TruthTable from bools / strings, PyFunction from a '
+        'list callable with and without output_size and from a 0/1-integer-valued callable, PyFunction.from_positional, Circuit as mux tree); circuits: every circuit of '
         'F(n,2,FULL) with outputs (last gate, first gate, first input) as its own function; identity: callables returning their argument list; every '
         'protocol query with every index argument, both inverse values, every non-empty output subset for find_negations; answers '
         'compared with definitions computed from the table and across representations. models: every {0,1,*} table x every completion '
-        '(check, check_at, get_model_truth_table, define). wrappers: from_int_unary/binary_func widths<=3, both endiannesses, 5 '
+        '(check, check_at, get_model_truth_table, define; PyFunctionModel also from callables that hand out lists they keep; the model must be unchanged afterwards). wrappers: from_int_unary/binary_func widths<=3, both endiannesses, 5 '
         'functions each. helpers: canonical index helpers and input_iterator_with_fixed_sum for all arguments up to size 5. '
         'distinct = distinct function classes (constant/symmetric/monotone signature).',
         'bounds': {'quick': '(n,m) in {(0,1),(0,2),(1,1),(1,2),(2,1),(2,2),(3,1),(1,3)}; circuits F(1..2,2,FULL); models (1,1),(2,1),(1,2)',
